@@ -517,6 +517,7 @@ func (e *erasureCodingPartStore) newPartReader(ctx context.Context, tx database.
 			available := 0
 			dataBytes := 0
 			seenAny := false
+			seenEnd := false
 			for i := 0; i < e.totalShards; i++ {
 				if readers[i] == nil {
 					continue
@@ -527,19 +528,23 @@ func (e *erasureCodingPartStore) newPartReader(ctx context.Context, tx database.
 					if errors.Is(err, io.EOF) || errors.Is(err, io.ErrUnexpectedEOF) {
 						closeReaderAt(i)
 						healShards[i] = true
+						seenEnd = true
 						continue
 					}
 					closeHealingWriters(err)
 					_ = pw.CloseWithError(err)
 					return
 				}
-				seenAny = true
 				fIdx, fDataBytes, payloadLen, expectedHash, err := parseFrameHeader(fh)
 				if err != nil || fIdx != stripeIndex {
+					// Not a frame of this stripe. When the other shards have
+					// ended, these are trailing bytes on a damaged shard and
+					// not the start of another stripe.
 					closeReaderAt(i)
 					healShards[i] = true
 					continue
 				}
+				seenAny = true
 				payload := make([]byte, payloadLen)
 				_, err = io.ReadFull(readers[i], payload)
 				if err != nil {
@@ -559,7 +564,7 @@ func (e *erasureCodingPartStore) newPartReader(ctx context.Context, tx database.
 				shards[i] = payload
 				available++
 			}
-			if !seenAny {
+			if !seenAny && seenEnd {
 				closeHealingWriters(nil)
 				_ = pw.Close()
 				return
